@@ -17,12 +17,13 @@ import (
 )
 
 type Replayer struct {
-	sub    string
-	tmp    string
-	bin    string
-	cwd    string
-	BuildS float64
-	Runs   int
+	sub      string
+	tmp      string
+	bin      string
+	cwd      string
+	BuildS   float64
+	Runs     int
+	opgenBin string
 }
 
 var harnessFuncRe = regexp.MustCompile(`(?m)^func (H[0-9A-Za-z_]+)\(\)`)
@@ -73,6 +74,13 @@ func newReplayer(sub string, race bool) (*Replayer, error) {
 		return nil, err
 	}
 	paths[filepath.Join(target, "zz_verif_registry_test.go")] = reg
+	for n, b := range generatedHarnessData(sub) {
+		gp := filepath.Join(tmp, n)
+		if err := os.WriteFile(gp, b, 0o644); err != nil {
+			return nil, err
+		}
+		paths[filepath.Join(target, "zz_verif_"+strings.TrimSuffix(n, ".go")+"_test.go")] = gp
+	}
 	ovj, _ := json.Marshal(map[string]interface{}{"Replace": paths})
 	ovPath := filepath.Join(tmp, "overlay.json")
 	os.WriteFile(ovPath, ovj, 0o644)
@@ -90,6 +98,17 @@ func newReplayer(sub string, race bool) (*Replayer, error) {
 		os.RemoveAll(tmp)
 		return nil, fmt.Errorf("native replay build failed: %v\n%s", err, out)
 	}
+	if sub == "opgen" {
+		// the shipped program (no build tag) for vRunMain
+		r.opgenBin = filepath.Join(tmp, "opgen-bin")
+		bc := exec.Command("go", "build", "-o", r.opgenBin, "./cmd/opgen")
+		bc.Dir = repoDir
+		bc.Env = goEnv()
+		if out, err := bc.CombinedOutput(); err != nil {
+			os.RemoveAll(tmp)
+			return nil, fmt.Errorf("opgen build failed: %v\n%s", err, out)
+		}
+	}
 	r.BuildS = time.Since(start).Seconds()
 	return r, nil
 }
@@ -105,7 +124,7 @@ func (r *Replayer) Run(path string) (string, string) {
 	r.Runs++
 	cmd := exec.Command(r.bin, "-test.run", "^TestVerifReplay$", "-test.count=1", "-test.timeout=120s")
 	cmd.Dir = r.cwd
-	cmd.Env = append(goEnv(), "GOSYM_REPLAY="+path)
+	cmd.Env = append(goEnv(), "GOSYM_REPLAY="+path, "GOSYM_OPGEN_BIN="+r.opgenBin)
 	out, _ := cmd.CombinedOutput()
 	text := string(out)
 	verdict := "error"
